@@ -8,6 +8,7 @@ import (
 	"sort"
 	"strings"
 	"testing"
+	"time"
 
 	datatransfer "github.com/filecoin-project/go-data-transfer/v2"
 	"verifharness/kit"
@@ -131,7 +132,9 @@ func TestCrash(t *testing.T) {
 						ic.J++
 					}
 				}
-				st, err := n2.Ch.GetByID(context.Background(), chid)
+				gctx, gcancel := context.WithTimeout(context.Background(), 3*time.Second) // a record that cannot be read back must not hang the harness
+				st, err := n2.Ch.GetByID(gctx, chid)
+				gcancel()
 				if err != nil {
 					im.Err = "GetByID: " + err.Error()
 				} else {
